@@ -282,7 +282,7 @@ class C12(Check):
                                  files=[{'kind': 'text', 'sub': 0,
                                          'lines': [t, 'plain']}])):
                         if tier != 'thorough':
-                            c['menu'] = 'short'
+                            c['menu'] = 'chars'
                         yield c
         elif layer == 'runmodes':
             shapes = [
@@ -304,11 +304,11 @@ class C12(Check):
                 for it in (1, 2):
                     c = dict(sh, iters=it, mode='same')
                     if tier != 'thorough':
-                        c['menu'] = 'short'
+                        c['menu'] = 'chars'
                     yield c
             for sh in (shapes if tier == 'thorough' else shapes[:1] + shapes[2:3]
                        + shapes[4:5]):
-                c = dict(sh, mode='fresh', menu='short')
+                c = dict(sh, mode='fresh', menu='tiny')
                 yield c
         elif layer == 'pairs':
             for o in ('plain', 'today', 'regex'):
@@ -381,7 +381,7 @@ class C12(Check):
             if s != cur:
                 out.append(('status', 'status->%d' % s, False,
                             'd_status.dat', ('%d\n' % s).encode(), '-'))
-        if case.get('menu') == 'short':
+        if case.get('menu') in ('short', 'tiny', 'chars'):
             # per output one character / byte altered, one line added, one
             # line removed, the file no longer produced; one status change
             seen = set()
@@ -394,6 +394,12 @@ class C12(Check):
                                  'latin1-insert') else
                         'status' if k.startswith('status') else None)
                 if cls_ is None or m[2] or (m[0], cls_) in seen:
+                    continue
+                if case['menu'] == 'tiny' and cls_ not in (
+                        'content', 'not-produced', 'status'):
+                    continue
+                if case['menu'] == 'short' and cls_ in (
+                        'nonascii-insert', 'nul-insert', 'latin1-insert'):
                     continue
                 seen.add((m[0], cls_))
                 short.append(m)
@@ -626,6 +632,8 @@ class C12(Check):
             # ---- revert
             H.write_data(b, dname, b.data[dname])
             key = (target, kind.split('@')[0])
+            if mode == 'fresh' and self.tier != 'thorough':
+                continue            # one revert run at the end (cost)
             if self.tier == 'thorough' or key not in reverted_once or bad \
                     and not guarded:
                 reverted_once.add(key)
@@ -639,6 +647,12 @@ class C12(Check):
                         {'case': case, 'mutation': sub, 'failing': bad2,
                          'other': r2['other']}, sub)
 
+        if mode == 'fresh' and self.tier != 'thorough':
+            r2, bad2 = run()
+            if bad2 or r2['other'] or r2['import_error']:
+                R.viol('revert-fails:fresh-process',
+                       'keeps-passing-when-nothing-changed',
+                       {'case': case, 'failing': bad2, 'other': r2['other']})
         if pairs:
             # one representative non-gray mutation per (target, kind class)
             reps = {}
